@@ -1,9 +1,171 @@
-// Package c07: check for property C07 (stub until implemented).
+// Package c07: outcome independent of delivery order; no deadlock; exactly one result (NETMC).
 package c07
 
-import "verif/internal/core"
+import (
+	"fmt"
+	"math/big"
+	"runtime"
 
-// Implemented reports whether this check is built.
-const Implemented = false
+	"github.com/bnb-chain/tss-lib/v2/common"
+	edkg "github.com/bnb-chain/tss-lib/v2/eddsa/keygen"
 
-func Run(r *core.Run) { r.Cap("not implemented") }
+	"verif/internal/core"
+	"verif/internal/netrun"
+	"verif/internal/oracle"
+	"verif/internal/protomc"
+	"verif/internal/ref"
+	"verif/internal/scen"
+)
+
+const Implemented = true
+
+func edKeygenOracle(sc protomc.Scenario) func(ends [][]interface{}) []string {
+	return func(ends [][]interface{}) []string {
+		var parts []oracle.Sharing
+		for _, e := range ends {
+			parts = append(parts, oracle.EdSharing(e[0].(*edkg.LocalPartySaveData)))
+		}
+		ids := append([]*big.Int{}, sc.Cfg.Keys...)
+		sortBig(ids)
+		var out []string
+		for _, p := range oracle.CheckSharing(ref.Ed25519, parts, ids, sc.Cfg.Threshold, nil) {
+			out = append(out, p.Key)
+		}
+		return out
+	}
+}
+
+func sortBig(x []*big.Int) {
+	for i := range x {
+		for j := i + 1; j < len(x); j++ {
+			if x[j].Cmp(x[i]) < 0 {
+				x[i], x[j] = x[j], x[i]
+			}
+		}
+	}
+}
+
+func edSigningOracle(sc protomc.Scenario) func(ends [][]interface{}) []string {
+	return func(ends [][]interface{}) []string {
+		var out []string
+		var first *common.SignatureData
+		for _, e := range ends {
+			sd := e[0].(*common.SignatureData)
+			if first == nil {
+				first = sd
+			} else if string(first.Signature) != string(sd.Signature) {
+				out = append(out, "signers-disagree")
+			}
+			for _, p := range oracle.CheckEddsaSig(sd, sc.Cfg.EdKeys[0].EDDSAPub, sc.Cfg.Msg, sc.Cfg.FullBytesLen) {
+				out = append(out, p.Key)
+			}
+		}
+		return out
+	}
+}
+
+func edResharingOracle(sc protomc.Scenario) func(ends [][]interface{}) []string {
+	return func(ends [][]interface{}) []string {
+		nOld := len(sc.Cfg.EdKeys)
+		var parts []oracle.Sharing
+		for _, e := range ends[nOld:] {
+			parts = append(parts, oracle.EdSharing(e[0].(*edkg.LocalPartySaveData)))
+		}
+		ids := append([]*big.Int{}, sc.Cfg.NewKeys...)
+		sortBig(ids)
+		want := ref.Point{X: sc.Cfg.EdKeys[0].EDDSAPub.X(), Y: sc.Cfg.EdKeys[0].EDDSAPub.Y()}
+		var out []string
+		for _, p := range oracle.CheckSharing(ref.Ed25519, parts, ids, sc.Cfg.NewThreshold, &want) {
+			out = append(out, p.Key)
+		}
+		return out
+	}
+}
+
+func ecSigningOracle(sc protomc.Scenario) func(ends [][]interface{}) []string {
+	return func(ends [][]interface{}) []string {
+		var out []string
+		var first *common.SignatureData
+		for _, e := range ends {
+			sd := e[0].(*common.SignatureData)
+			if first == nil {
+				first = sd
+			} else if string(first.Signature) != string(sd.Signature) || string(first.SignatureRecovery) != string(sd.SignatureRecovery) {
+				out = append(out, "signers-disagree")
+			}
+			for _, p := range oracle.CheckEcdsaSig(sd, sc.Cfg.EcKeys[0].ECDSAPub, sc.Cfg.Msg, sc.Cfg.FullBytesLen) {
+				out = append(out, p.Key)
+			}
+		}
+		return out
+	}
+}
+
+type job struct {
+	sc   protomc.Scenario
+	opt  protomc.Options
+	kind string
+}
+
+func Run(r *core.Run) {
+	w := runtime.NumCPU()
+	var jobs []job
+	addMode := func(sc protomc.Scenario, mode string, devs, dups int, or func(protomc.Scenario) func([][]interface{}) []string) {
+		o := protomc.Options{C07: true, Mode: mode, Deviations: devs, Dups: dups, Workers: w}
+		if mode == "joint" || mode == "dev" {
+			sc.Cfg.RealRand = mode == "joint" && sc.Cfg.Proto == netrun.EcdsaSigning
+		}
+		if or != nil {
+			o.ResultOracle = or(sc)
+		}
+		jobs = append(jobs, job{sc: sc, opt: o, kind: mode})
+	}
+	add := func(sc protomc.Scenario, dups int, or func(protomc.Scenario) func([][]interface{}) []string) {
+		o := protomc.Options{C07: true, Dups: dups, Workers: w, JointValidate: 40}
+		if or != nil {
+			o.ResultOracle = or(sc)
+		}
+		jobs = append(jobs, job{sc: sc, opt: o})
+	}
+	msg := new(big.Int).SetBytes(core.Bytes("c07-msg", 32))
+	// EdDSA keygen: all schedules, with one duplicate delivery anywhere
+	add(scen.EdKeygen("small", 2, 1, r.Seed), 1, edKeygenOracle)
+	add(scen.EdKeygen("near-q", 3, 1, r.Seed), 0, edKeygenOracle)
+	add(scen.EdKeygen("small", 3, 2, r.Seed), 1, edKeygenOracle)
+	// EdDSA signing
+	add(scen.EdSigning("small", 3, 1, []int{0, 2}, msg, 0, r.Seed), 1, edSigningOracle)
+	add(scen.EdSigning("small", 3, 1, []int{0, 1, 2}, msg, 32, r.Seed), 1, edSigningOracle)
+	// EdDSA resharing
+	add(scen.EdResharing(3, 1, []int{0, 2}, 2, 1, r.Seed), 1, edResharingOracle)
+	// ECDSA signing: joint mode (round-2 values are not reproducible), all schedules for 2 signers
+	addMode(scen.EcSigning("small", 2, 1, []int{0, 1}, msg, 0, r.Seed), "joint", 0, 0, ecSigningOracle)
+	if r.Tier == "thorough" {
+		add(scen.EdKeygen("large", 3, 1, r.Seed), 2, edKeygenOracle)
+		add(scen.EdSigning("small", 3, 2, []int{0, 1, 2}, msg, 0, r.Seed), 2, edSigningOracle)
+		add(scen.EdResharing(3, 1, []int{0, 1}, 2, 1, r.Seed), 2, edResharingOracle)
+	}
+	var states, trans, traces int
+	for _, j := range jobs {
+		st := protomc.Explore(r, j.sc, j.opt)
+		states += st.States
+		trans += st.Transitions
+		traces += st.JointReplays
+		if st.Capped {
+			r.Cap("state cap hit in " + j.sc.Name)
+		}
+		r.Distinct("terminal_outcomes", fmt.Sprintf("%s#%d", j.sc.Name, st.DistinctOutcomes))
+		r.Set("cfg:"+j.sc.Name, map[string]interface{}{"states": st.States, "transitions": st.Transitions, "max_depth": st.MaxDepth, "terminal_states": st.Terminals,
+			"distinct_terminal_outcomes": st.DistinctOutcomes, "feasible_local_states": st.LocalStates, "local_transitions_executed": st.LocalTransitions,
+			"nonconfluent_internal": st.NonConfluent, "joint_replays": st.JointReplays, "dup_bound": j.opt.Dups, "mode": j.kind, "deviation_bound": j.opt.Deviations})
+		for _, s := range st.Samples {
+			r.ForceSample(s)
+		}
+		fmt.Printf("  %-60s states=%d trans=%d terminals=%d outcomes=%d local=%d joint=%d\n", j.sc.Name, st.States, st.Transitions, st.Terminals, st.DistinctOutcomes, st.LocalStates, st.JointReplays)
+	}
+	r.Set("states", states)
+	r.Set("transitions", trans)
+	r.Set("traces_validated_against_impl", traces)
+	r.Assume("party independence (parties interact only through messages): validated by joint replays of FIFO, one-deviation and terminal traces, counted in traces_validated_against_impl")
+	r.Assume("per-party DRBG seam (SetRand/SetPartialKeyRand) makes a party a deterministic function of its call history")
+	_ = netrun.EddsaKeygen
+}
